@@ -467,6 +467,144 @@ def fam_kind_words_in_names():
     return out
 
 
+# -- several choice lists in ONE form (round 3): the quantifier speaks of "choice lists shared by several selects and
+# search() selects" and "any sparse pattern ... on choices".  The families above only ever build one list per form
+# (or two lists whose rows are all distinct, with search() on one of them), so nothing exercised what a list's
+# references look like when ANOTHER list of the same form holds the very same rows, needs itext for a different
+# reason (or not at all), and is consumed in a different way / earlier or later in document order.
+
+COMMON_ROWS = [("yes", "Yes"), ("no", "No"), ("dk", "Don't know"), ("na", "N/A")]
+
+# why a list needs itext (source condition on ONE extra row of the list); "none"/"plain" lists need none.
+LIST_REASONS = ["none", "plain", "image", "audio", "lang-label", "dyn-label", "lang-image", "lang-only-label"]
+
+
+def _reason_row(reason, lang="French"):
+    """The extra row of a list; same name/label in every list, so that rows differ only by the reason cell."""
+    if reason == "none":
+        return None
+    r = {"name": "ex", "label": "Extra"}
+    if reason == "image":
+        r["image"] = "ex.png"
+    elif reason == "audio":
+        r["audio"] = "ex.mp3"
+    elif reason == "lang-label":
+        r[_hdr("label", lang)] = "Extra tr"
+    elif reason == "lang-only-label":
+        del r["label"]
+        r[_hdr("label", lang)] = "Extra tr"
+    elif reason == "dyn-label":
+        r["label"] = "Extra ${q0}"
+    elif reason == "lang-image":
+        r[_hdr("image", lang)] = "ex_tr.png"
+    elif reason != "plain":
+        raise ValueError(reason)
+    return r
+
+
+def _multi_list_rows(specs, n_common=2, lang="French"):
+    """specs: [(list_name, reason, extra_first)] -> choices rows. Every list holds the same all-plain common rows
+    (identical cells in identical column order) plus its reason row, before or after them (shifts the indices)."""
+    rows = []
+    for ln, reason, extra_first in specs:
+        common = [{"list_name": ln, "name": n, "label": l} for n, l in COMMON_ROWS[:n_common]]
+        ex = _reason_row(reason, lang)
+        ex = [{"list_name": ln, **ex}] if ex else []
+        rows += (ex + common) if extra_first else (common + ex)
+    return rows
+
+
+SELECT_USES = ["search", "search-multi", "plain", "plain-twice", "search-twice"]
+
+
+def _select_rows(k, ln, use, qlabel):
+    s1 = {"type": f"select_one {ln}", "name": f"s{k}", **qlabel}
+    if use == "plain":
+        return [s1]
+    if use == "search":
+        return [{**s1, "appearance": f"search('f{k}')"}]
+    if use == "search-multi":
+        return [{**s1, "type": f"select_multiple {ln}", "appearance": f"minimal search('f{k}')"}]
+    if use == "plain-twice":
+        return [s1, {"type": f"select_multiple {ln}", "name": f"s{k}b", **qlabel}]
+    if use == "search-twice":
+        return [{**s1, "appearance": f"search('f{k}')"},
+                {"type": f"select_one {ln}", "name": f"s{k}b", **qlabel, "appearance": f"search('g{k}', 'matches', 'n', ${{q0}})"}]
+    raise ValueError(use)
+
+
+def _multi_list_form(name, specs, uses, order, n_common=2, lang="French", qlabel=None, wrap=None, settings=None):
+    """specs[k] = (list_name, reason, extra_first); uses[k] in SELECT_USES; order = document order of the selects."""
+    qlabel = qlabel or {"label": "S"}
+    rows = [Q0]
+    for pos, k in enumerate(order):
+        sel = _select_rows(k, specs[k][0], uses[k], qlabel)
+        if wrap and pos == wrap[1]:
+            sel = [{"type": f"begin {wrap[0]}", "name": f"w{k}", **qlabel}, *sel, {"type": f"end {wrap[0]}"}]
+        rows += sel
+    return _form(name, rows, _multi_list_rows(specs, n_common, lang), settings=settings)
+
+
+MULTI_LIST_NAMES = ("visit", "yn", "yn.b", "v")
+
+
+def fam_lists_sharing_rows(reasons, uses, extra_firsts, n_lists=2, qlabels=(None,), wraps=(None,)):
+    """Small-scope exhaustive: n lists with identical common rows x why each list needs itext x how each list is
+    consumed x document order of the selects x index shift of the common rows."""
+    out = []
+    names = MULTI_LIST_NAMES[:n_lists]
+    for rs in itertools.product(reasons, repeat=n_lists):
+        for us in itertools.product(uses, repeat=n_lists):
+            for efs in extra_firsts:
+                specs = [(names[k], rs[k], efs[k % len(efs)]) for k in range(n_lists)]
+                for order in itertools.permutations(range(n_lists)):
+                    for qi, ql in enumerate(qlabels):
+                        for wrap in wraps:
+                            out.append(_multi_list_form(
+                                f"ml[{'|'.join(rs)}|{'|'.join(us)}|ef{efs}|ord{order}|ql{qi}|{wrap}]",
+                                specs, us, order, qlabel=ql, wrap=wrap))
+    return out
+
+
+def fam_random_lists_sharing_rows(rnd, n):
+    """2-4 lists drawn from a pool of common rows (partly overlapping, any position), random reasons, uses, languages,
+    nesting, and default-language settings."""
+    out = []
+    for i in range(n):
+        lang = rnd.choice(["French", "English (en)", "default", "fr"])
+        nl = rnd.randint(2, 4)
+        names = rnd.sample(MULTI_LIST_NAMES, nl)
+        ch = []
+        for ln in names:
+            common = [{"list_name": ln, "name": nm, "label": lb}
+                      for nm, lb in rnd.sample(COMMON_ROWS, rnd.randint(1, len(COMMON_ROWS)))]
+            if rnd.random() < 0.5:
+                common.sort(key=lambda r: [c[0] for c in COMMON_ROWS].index(r["name"]))
+            for reason in rnd.sample(LIST_REASONS[1:], rnd.choice([0, 0, 1, 1, 2])):
+                ex = {"list_name": ln, **_reason_row(reason, lang)}
+                ex["name"] = f"ex_{reason.replace('-', '_')}"
+                common.insert(rnd.randint(0, len(common)), ex)
+            ch += common
+        ql = rnd.choice([{"label": "S"}, {_hdr("label", lang): "S tr"}, {"label": "S", _hdr("hint", lang): "H tr"}])
+        rows = [Q0]
+        order = list(range(nl))
+        rnd.shuffle(order)
+        opened = []
+        for k in order:
+            if rnd.random() < 0.25 and len(opened) < 2:
+                kind = rnd.choice(["group", "repeat"])
+                rows.append({"type": f"begin {kind}", "name": f"w{k}", **ql})
+                opened.append(kind)
+            rows += _select_rows(k, names[k], rnd.choice(SELECT_USES), ql)
+            if opened and rnd.random() < 0.5:
+                rows.append({"type": f"end {opened.pop()}"})
+        while opened:
+            rows.append({"type": f"end {opened.pop()}"})
+        st = rnd.choice([None, None, {"default_language": lang}, {"default_language": "Klingon"}])
+        out.append(_form(f"mlr[{i}]", rows, ch, settings=st))
+    return out
+
+
 def cases(tier, seed):
     rnd = random.Random(seed * 7919 + 7)
     thorough = tier == "thorough"
@@ -498,4 +636,22 @@ def cases(tier, seed):
     for (a, b) in LANG_PAIRS:
         out += fam_kind_pairs(a, b, rnd, 150 if thorough else 25)
     out += fam_random(rnd, 3000 if thorough else 250)
+
+    # several lists with identical rows in one form (own generator: the families above keep their exact sequence)
+    rnd2 = random.Random(seed * 7919 + 11)
+    tr_q = {_hdr("label", "French"): "S tr"}
+    if thorough:
+        out += fam_lists_sharing_rows(LIST_REASONS, ["search", "search-multi", "plain"],
+                                      [(False, False), (True, False), (False, True)])
+        out += fam_lists_sharing_rows(["none", "image", "lang-label", "dyn-label"], SELECT_USES, [(False, True)],
+                                      qlabels=(tr_q,), wraps=(None, ("repeat", 0), ("group", 1)))
+        out += fam_lists_sharing_rows(["none", "image", "lang-label"], ["search", "plain"], [(False, True, False)],
+                                      n_lists=3)
+    else:
+        out += fam_lists_sharing_rows(["none", "image", "audio", "lang-label", "dyn-label"], ["search", "plain"],
+                                      [(False, False), (True, False)])
+        out += fam_lists_sharing_rows(["plain", "lang-image", "lang-only-label"], ["search", "search-twice"],
+                                      [(False, True)], qlabels=(tr_q,))
+        out += fam_lists_sharing_rows(["none", "image", "lang-label"], ["search"], [(False, True, False)], n_lists=3)
+    out += fam_random_lists_sharing_rows(rnd2, 3000 if thorough else 300)
     return out
